@@ -14,10 +14,10 @@ from .common import hexs
 OPS = ["*", "/", "%", "+", "-", "::", "<", "<=", ">", ">=", "==", "!=", "&&", "||"]
 # independent (python) copy of the two tables; used only to *classify* failures into known findings
 PPREC = {"*": 0, "/": 0, "%": 0, "+": 1, "-": 1, "::": 1, "<": 2, "<=": 2, ">": 2, ">=": 2, "==": 2, "!=": 2, "&&": 3, "||": 4}
-PLEVEL = {"||": 0, "&&": 1, "<": 2, "<=": 2, ">": 2, ">=": 2, "==": 2, "!=": 2, "+": 3, "-": 3, "*": 4, "/": 4, "%": 4, "::": 5}
-NOSHORTCUT = {"-", "/", "%"}
+PLEVEL = {"||": 0, "&&": 1, "<": 2, "<=": 2, ">": 2, ">=": 2, "==": 2, "!=": 2, "+": 3, "-": 3, "::": 3, "*": 4, "/": 4, "%": 4}
+ASSOC = {"+", "*", "&&", "||"}
 WIDTHS = [20, 40, 80, 100, 200]
-TOKRE = re.compile(r"\d+|[A-Za-z][A-Za-z0-9]*|::|<=|>=|==|!=|&&|\|\||[()+\-*/%<>!]")
+TOKRE = re.compile(r"\d+|[A-Za-z][A-Za-z0-9]*|->|::|<=|>=|==|!=|&&|\|\||[()+\-*/%<>!{},._]")
 
 
 # ---------------------------------------------------------------- trees (python side)
@@ -63,8 +63,10 @@ def lvl(t):
     if not isinstance(t, str) and t and t[0] in OPS and len(t) == 3:
         return PLEVEL[t[0]]
     if not isinstance(t, str) and t and t[0] in ("!", "neg"):
-        return 6
-    return 7
+        return 5
+    if head(t) in ("if", "match", "lambda"):
+        return -1          # never an operand without parentheses
+    return 6
 
 
 def bad_nodes(t, out=None):
@@ -76,29 +78,28 @@ def bad_nodes(t, out=None):
         return out
     h = t[0] if t and isinstance(t[0], str) else ""
     if h == "s" and len(t) == 2 and isinstance(t[1], str):
-        try:
-            if b'"' in common.unhex(t[1]):
-                out.append("C08-F2")
-        except ValueError:
-            pass
-        return out
+        return out          # C08-F2 is fixed: no string literal is excused any more
     if h in ("!", "neg") and len(t) == 2:
         a = t[1]
-        if not isinstance(a, str) and a and a[0] in ("!", "neg"):
+        if prec(a) < 2 and lvl(a) < 6:      # bare operand must be a base/postfix expression
             out.append("C08-F3")
+    elif h in (".", "call") and len(t) >= 2:
+        if prec(t[1]) <= 1 and lvl(t[1]) < 6:
+            out.append("C08-chain-base")
     elif h in OPS and len(t) == 3:
         l, r = t[1], t[2]
         p = 4 + PPREC[h]
+        shortcut_ok = (h in ASSOC and not isinstance(r, str) and len(r) == 3 and r[0] == h and prec(r[1]) != p)
         if prec(l) == p:
             lpar, rpar, shortcut = False, prec(r) >= p, False
-        elif prec(r) == p and h not in NOSHORTCUT:
+        elif prec(r) == p and shortcut_ok:
             lpar, rpar, shortcut = prec(l) >= p, False, True
         else:
             lpar, rpar, shortcut = prec(l) >= p, prec(r) >= p, False
         if not lpar and lvl(l) < PLEVEL[h]:
             out.append("C08-F4")
         if not rpar and lvl(r) <= PLEVEL[h]:
-            out.append("C08-F1" if shortcut else "C08-F4")
+            out.append("C08-F5" if shortcut else "C08-F1")
     for c in t[1:] if h else t:
         bad_nodes(c, out)
     return out
@@ -117,46 +118,127 @@ def gen_atom(rng):
     return "-2147483648"
 
 
-def gen_tree(rng, depth):
+NAMES = ["foo", "bar", "b", "len"]
+
+
+def simple_word(rng):
+    return rng.pick(["a", "b", "x", "y", "1", "42", "this", "true"])
+
+
+def gen_tree(rng, depth, ext=False):
+    """random expression tree; ext=True also uses postfix chains, calls, lambdas and the opaque
+    if / match / block forms (precedence classes 0/1/10/11/12)"""
     if depth <= 0 or rng.chance(1, 5):
+        if ext and rng.chance(1, 4):
+            k = rng.below(3)
+            if k == 0:
+                return ["if", simple_word(rng), ["block", ["final", simple_word(rng)]], ["block", ["final", simple_word(rng)]]]
+            if k == 1:
+                return ["match", simple_word(rng), ["case", ["pvariant", "A", ["ptuple", ["pid", "v"]]], simple_word(rng)],
+                        ["case", ["pvariant", "B", ["ptuple", "_"]], simple_word(rng)]]
+            return ["block", ["final", simple_word(rng)]]
         return gen_atom(rng)
+    if ext and rng.chance(1, 4):
+        k = rng.below(3)
+        if k == 0:
+            return [".", gen_tree(rng, depth - 1, ext), rng.pick(NAMES)]
+        if k == 1:
+            return ["call", gen_tree(rng, depth - 1, ext)] + [simple_word(rng) for _ in range(rng.below(3))]
+        return ["lambda", ["params"] + [[x] for x in ["p", "q"][:rng.below(3)]], gen_tree(rng, depth - 1, ext)]
     if rng.chance(1, 6):
-        return [rng.pick(["!", "neg"]), gen_tree(rng, depth - 1)]
-    return [rng.pick(OPS), gen_tree(rng, depth - 1), gen_tree(rng, depth - 1)]
+        return [rng.pick(["!", "neg"]), gen_tree(rng, depth - 1, ext)]
+    return [rng.pick(OPS), gen_tree(rng, depth - 1, ext), gen_tree(rng, depth - 1, ext)]
+
+
+def head(t):
+    return t[0] if not isinstance(t, str) and t and isinstance(t[0], str) else ""
+
+
+def is_ext(t):
+    if isinstance(t, str):
+        return False
+    return head(t) in (".", "call", "lambda", "if", "match", "block") or any(is_ext(t[i]) for i in kids(t))
+
+
+def kids(t):
+    """indices of the expression children of a node"""
+    h = head(t)
+    if h in OPS and len(t) == 3:
+        return [1, 2]
+    if h in ("!", "neg", ".", "call"):
+        return [1]
+    if h == "lambda":
+        return [2]
+    return []
+
+
+def render_opaque(t):
+    h = head(t)
+    if h == "if":
+        return f"if {t[1]} {{ {t[2][1][1]} }} else {{ {t[3][1][1]} }}"
+    if h == "match":
+        cs = []
+        for c in t[2:]:
+            pat = c[1]
+            v = pat[2][1]
+            cs.append(f"{pat[1]}({v if isinstance(v, str) else v[1]}) -> {c[2]}")
+        return f"match {t[1]} {{ " + ", ".join(cs) + " }"
+    if h == "block":
+        return f"{{ {t[1][1]} }}"
+    raise ValueError("cannot render " + str(t))
 
 
 def render(t, rng=None):
     """source text with explicit parentheses forcing exactly this tree (plus random redundant ones)"""
+    h = head(t)
     if isinstance(t, str):
         s = t
-    elif len(t) == 2:
-        s = ("!" if t[0] == "!" else "-") + ("" if rng and rng.chance(1, 2) else " ") + wrap(t[1], rng)
+    elif h in ("!", "neg"):
+        s = ("!" if h == "!" else "-") + ("" if rng and rng.chance(1, 2) else " ") + wrap(t[1], rng)
+    elif h in OPS and len(t) == 3:
+        s = wrap(t[1], rng) + " " + h + " " + wrap(t[2], rng)
+    elif h == ".":
+        s = wrap(t[1], rng) + "." + t[2]
+    elif h == "call":
+        s = wrap(t[1], rng) + "(" + ", ".join(t[2:]) + ")"
+    elif h == "lambda":
+        s = "(" + ", ".join(p[0] for p in t[1][1:]) + ") -> " + render(t[2], rng)
     else:
-        s = wrap(t[1], rng) + " " + t[0] + " " + wrap(t[2], rng)
+        s = render_opaque(t)
     if rng and rng.chance(1, 12):
         s = "(" + s + ")"
     return s
 
 
 def wrap(t, rng):
-    if isinstance(t, str) and not (rng and rng.chance(1, 10)):
-        return t
+    if (isinstance(t, str) or head(t) == "block") and not (rng and rng.chance(1, 10)):
+        return render(t)
     return "(" + render(t, rng) + ")"
 
 
-def render_min(t, k=0):
+def render_min(t, k=-1):
     """parser-minimal rendering (own precedence climbing: python side), exercising the real parser's
-    level structure rather than explicit parentheses"""
+    level structure rather than explicit parentheses; k = -1 is `parse_expression`"""
+    h = head(t)
     if isinstance(t, str):
         return t
-    if len(t) == 2:
-        a = t[1]
-        s = ("!" if t[0] == "!" else "-") + (render_min(a, 7) if lvl(a) >= 7 else "(" + render_min(a, 0) + ")")
-        my = 6
-    else:
-        j = PLEVEL[t[0]]
-        s = render_min(t[1], j) + " " + t[0] + " " + render_min(t[2], j + 1)
+    if h in ("!", "neg"):
+        s = ("!" if h == "!" else "-") + render_min(t[1], 6)
+        my = 5
+    elif h in OPS and len(t) == 3:
+        j = PLEVEL[h]
+        s = render_min(t[1], j) + " " + h + " " + render_min(t[2], j + 1)
         my = j
+    elif h == ".":
+        s, my = render_min(t[1], 6) + "." + t[2], 6
+    elif h == "call":
+        s, my = render_min(t[1], 6) + "(" + ", ".join(t[2:]) + ")", 6
+    elif h == "lambda":
+        s, my = "(" + ", ".join(p[0] for p in t[1][1:]) + ") -> " + render_min(t[2], -1), -1
+    elif h == "block":
+        s, my = render_opaque(t), 6
+    else:
+        s, my = render_opaque(t), -1
     return s if my >= k else "(" + s + ")"
 
 
@@ -329,8 +411,8 @@ class Runner:
             if m is None:
                 continue
             cm = canon_model(m)
-            if ca != "perr" and any(x in ca.split(";")[0] for x in OUTSIDE) and not l.startswith("S"):
-                self.stats["outside_fragment"] += 1
+            if cm == "perr" and ca != "perr" and any(x in ca.split(";")[0] for x in OUTSIDE) and not l.startswith("S"):
+                self.stats["outside_fragment"] += 1     # a shape the driver's lexer does not group (e.g. nested call arguments)
                 continue
             if l.startswith("S") and ca != "perr" and cm.endswith(";rerr") and ca.split(";")[0] != ca.split(";")[2]:
                 # the model only says "the printed literal is no longer one string token"; what the real
@@ -369,7 +451,7 @@ class Runner:
         best = None
         try:
             tree = sexp(t0)
-            if line.startswith("S") or any(x in t0 for x in OUTSIDE):
+            if line.startswith("S"):
                 raise ValueError
             cur = fails(tree)
             changed = cur is not None
@@ -447,16 +529,16 @@ class Runner:
 
 
 def subtrees(t):
-    """candidate smaller trees: children, and the tree with one child replaced by an atom"""
+    """candidate smaller trees: expression children, and the tree with one child shrunk / replaced by an atom"""
     if isinstance(t, str):
         return
-    for c in t[1:]:
-        if not isinstance(c, str):
-            yield c
-    for i in range(1, len(t)):
+    for i in kids(t):
         if not isinstance(t[i], str):
-            for s in subtrees(t[i]):
-                yield t[:i] + [s] + t[i + 1:]
+            yield t[i]
+    for i in kids(t):
+        if not isinstance(t[i], str):
+            for x in subtrees(t[i]):
+                yield t[:i] + [x] + t[i + 1:]
             yield t[:i] + ["a"] + t[i + 1:]
 
 
@@ -473,6 +555,17 @@ def pair_enumeration():
     for u in ("!", "neg"):
         for v in ("!", "neg"):
             ts.append([u, [v, "a"]])
+    # every precedence class as operand of every kind of parent (classes 0/1/2/4-8/10/11/12)
+    IF = ["if", "c", ["block", ["final", "a"]], ["block", ["final", "b"]]]
+    MATCH = ["match", "x", ["case", ["pvariant", "A", ["ptuple", ["pid", "v"]]], "v"], ["case", ["pvariant", "B", ["ptuple", "_"]], "2"]]
+    LAM = ["lambda", ["params", ["p"]], ["+", "p", "1"]]
+    subs = ["a", ["block", ["final", "a"]], [".", "a", "foo"], ["call", "a", "b"], ["neg", "a"], ["!", "a"], IF, MATCH, LAM] + \
+        [[o, "a", "b"] for o in ("*", "+", "::", "<", "&&", "||")]
+    for x in subs:
+        ts += [[".", x, "foo"], ["call", x, "b", "1"], ["call", x], ["neg", x], ["!", x], ["lambda", ["params"], x],
+               ["lambda", ["params", ["p"], ["q"]], x], [".", ["call", [".", x, "foo"], "a"], "bar"]]
+        for o in ("*", "-", "::", "==", "&&", "||"):
+            ts += [[o, x, "c"], [o, "c", x]]
     ts += [["neg", "5"], ["neg", "-2147483648"], ["-", "1", "-2147483648"], ["-", "a", ["neg", "b"]],
            ["+", ["+", "a", ["+", "b", "c"]], ["*", ["*", "a", "b"], "c"]]]
     return ts
@@ -489,11 +582,8 @@ def corpus_files():
     return out
 
 
-PROBES = {  # one dedicated probe per known finding (inline replay inputs of findings/C08.json)
-    "C08-F1": ("E", "a * (b / c)"),
-    "C08-F2": ("S", '"q\\"uote"'),
-    "C08-F3": ("E", "-(-a)"),
-    "C08-F4": ("E", "(a + b) :: c"),
+PROBES = {  # one dedicated probe per *open* finding (inline replay inputs of findings/C08.json)
+    "C08-F5": ("E", "a + (b + c)"),
 }
 
 
@@ -521,20 +611,22 @@ def run(ctx):
         r.module_batch([(f, int(l.split(" ")[1]), common.unhex(l.split(" ")[2]).decode()) for l in lines if l[0] == "M"], f"corpus/{f}")
     # 2. exhaustive operator-pair enumeration, explicit and parser-minimal renderings, two widths
     pairs = pair_enumeration()
-    r.expr_batch([f"E {w} {hexs(render(t))}" for t in pairs for w in (100, 5)] +
+    # (opaque if/match/call units are compared token by token, so they are printed on one line: width 200)
+    r.expr_batch([f"E {w} {hexs(render(t))}" for t in pairs for w in ((200,) if is_ext(t) else (100, 5))] +
                  [f"E 100 {hexs(render_min(t))}" for t in pairs], "operator pairs", model=model_ok)
     # 3. random expressions (bulk steered away from the open findings' signatures), strings, malformed
     n_expr = ctx.scale(12000, 200000)
     lines = []
     for _ in range(n_expr):
         g = rng.fork()
+        ext = g.chance(2, 5)
         for _ in range(5):
-            t = gen_tree(g, g.range(1, 5))
+            t = gen_tree(g, g.range(1, 5), ext)
             if g.chance(1, 5) or not bad_nodes(t):
                 break
         k = g.below(3)
         src = render(t, g) if k == 0 else render(t) if k == 1 else render_min(t)
-        lines.append(f"E {g.pick(WIDTHS)} {hexs(src)}")
+        lines.append(f"E {200 if ext else g.pick(WIDTHS)} {hexs(src)}")
     for _ in range(ctx.scale(2000, 40000)):
         g = rng.fork()
         lines.append(f"S {g.pick(WIDTHS)} {hexs(gen_string_token(g, avoid_escaped_quote=not g.chance(1, 10)))}")
@@ -574,8 +666,8 @@ def run(ctx):
         "traces_validated_against_impl": st["expr_lines"] + st["str_lines"] if model_ok else 0,
         "operator_histogram": r.hist, "stats": st,
         "partial_theorems": {"roundtrip_expr_partial": "RT e (decidable: every operand the printer leaves bare stands at a parser level that reads it back)",
-                             "roundtrip_expr_clean": "Clean e (no `::`, no unary directly under unary, no shortcut-bared right operand)",
-                             "roundtrip_str_partial": "no `\\\"` in the literal", "roundtrip_int": "0 <= i < 2^31 or i = -2^31 (all values the parser produces)"},
+                             "roundtrip_expr_noShortcut": "NoShortcut e (no node `x op (y op z)` with op in + * && || printed without parentheses)",
+                             "roundtrip_int": "0 <= i < 2^31 or i = -2^31 (all values the parser produces)"},
         "pending": ["fuel-free form of roundtrip_expr_partial (parseE instead of `for every sufficiently large budget`; the driver cross-checks the budget on every line)",
                     "paren_insensitive", "width_irrelevant (C09 layout theorem)", "call/field chains, if/match/lambda/tuple/block atoms in the model (covered by the reparse oracle only)"]})
     ctx.assumptions += ["valid UTF-8 input", "int literal tokens in i32 range (out-of-range literals are C06)",
